@@ -121,7 +121,7 @@ def enc_aflat(d):
 
 def to_json(d):
     j = flat.FlatDesc.to_json(d)
-    j['kinds'] = sorted(d.kinds.items())
+    j['kinds'] = [[c, k] for c, k in sorted(d.kinds.items())]
     j['const'] = [[c, list(o)] for c, o in sorted(d.const.items())]
     return j
 
